@@ -546,3 +546,50 @@ def _referenced_inline(f, b, i):
         if isinstance(blk.get('cond'), dict):
             f.walk(blk['cond'], v)
     return bool(hit)
+
+
+def pfx4(cfg):
+    """PFX-4: the prefix-split constructor keeps the leading BYTES of the source prefix"""
+    from ..forwarders import is_assert_elem
+    res = RuleResult('PFX-4', 'key_prefix(len, source) - the prefix of the new parent created by a key-prefix split - consists of the first len BYTES of the source prefix and the length len, for every source length and every len up to it and every byte content (byte-vector abstract interpretation of the member initialiser; bytes beyond len are free)')
+    n = 0
+    for f in cfg.functions:
+        if not (f.blocks and f.cls.startswith('unodb::detail::key_prefix<') and f.d.get('ctor') and len(f.params) == 2 and (f.params[0].get('t') or '').startswith('unsigned') and 'key_prefix<' in (f.params[1].get('t') or '')):
+            continue
+        n += 1
+        res.functions.add(f.sig)
+        flavor = 'olc' if 'in_critical_section' in f.cls and 'in_fake' not in f.cls else 'db'
+        inits = [e for b, i, e in f.elements() if e.get('k') == 'init' and e.get('field') == 'u64' and e.get('e') is not None]
+        if len(inits) != 1:
+            res.incompl('PFX-4: the prefix-split constructor (%s) does not initialise its word in one member initialiser' % flavor)
+            continue
+        expr = f.strip_casts(inits[0]['e'])
+        d = 0
+        while isinstance(expr, dict) and expr.get('k') == 'call' and expr.get('ck') == 'ctor' and len(expr.get('args', [])) == 1 and d < 3:
+            expr = f.strip_casts(expr['args'][0])
+            d += 1
+        bad = None
+        cases = 0
+        try:
+            for L in range(0, 8):
+                for k in range(0, L + 1):
+                    cases += 1
+                    it = Interp(f, Word(0), {f.params[0]['did']: Word(k), f.params[1]['did']: ('obj', sym_word('s', L))}, {f.params[1]['did']: L})
+                    r = it.ev(expr)
+                    bs = r.bytes()
+                    want = [('s', 's%d' % i) for i in range(k)]
+                    if bs[:k] != want or bs[7] != ('c', k):
+                        bad = ('source length %d, new length %d' % (L, k), bs, want, k)
+                        break
+                if bad:
+                    break
+        except Unsupported as u:
+            res.incompl('PFX-4: the prefix-split constructor (%s) left the supported operator set: %s' % (flavor, u))
+            continue
+        ok = bad is None
+        res.ob(ok, {'rule': 'PFX-4', 'function': 'key_prefix(len, source) (%s)' % flavor, 'site': fileline(f.loc), 'length_combinations': cases, 'verdict': 'discharged' if ok else 'VIOLATION at ' + bad[0]})
+        if not ok:
+            res.find(f, f.loc, 'key_prefix(len, source) is not "the first len bytes of the source prefix" for %s: result bytes %s / length byte %s, expected %s with length %d - after a key-prefix split the new parent carries a wrong prefix, the whole subtree below it becomes unreachable (get misses present keys, a second insert of a present key succeeds)' % (bad[0], [_b(x) for x in bad[1][:7]], _b(bad[1][7]), [_b(x) for x in bad[2]], bad[3]), key='PFX-4:split-ctor', config=cfg.name)
+    res.count('prefix-split constructors', n)
+    res.floor('prefix-split constructors', 2)
+    return res
